@@ -4,6 +4,7 @@ import (
 	"bytes"
 	"context"
 	"fmt"
+	"io"
 	"os"
 	"regexp"
 	"sort"
@@ -637,7 +638,47 @@ func c12RaceHistories(w *h.W) {
 	w.Outcome("iterator-histories")
 }
 
+// c14RaceHammer: 8 interpreters do nothing but create and write the SAME never-seen atoms, numbers next to operators
+// and operator terms in tight loops at the same time. The ordinary bodies take the atom table's write lock so often
+// (every token of every query is interned) that two accesses to other process-wide state are almost always ordered
+// by it in the detector's eyes; here thousands of them fall between two acquisitions.
+func c14RaceHammer(w *h.W) {
+	n := 8
+	loops := []string{
+		"between(1, %d, I), number_codes(I, Cs), atom_codes(A, [0'h, 0' |Cs]), writeq(A), fail",
+		"between(1, %d, I), number_codes(I, Cs), atom_codes(A, [0'H|Cs]), print(f(A, 'it''s')), fail",
+		"between(1, %d, I), number_codes(I, Cs), atom_codes(A, [0'k|Cs]), write_canonical([A, I - 1, - I, 1 - A]), fail",
+		"between(1, %d, I), number_codes(I, Cs), atom_codes(A, [0'm, 0'.|Cs]), write_term(A + I, [quoted(true)]), atom_length(A, _), fail",
+		"between(1, %d, I), number_codes(I, Cs), atom_codes(A, [0'v|Cs]), T =.. [A, X, Y], copy_term(T, T2), writeq(T2), fail",
+	}
+	iters := w.Pick(1500, 6000)
+	var wg sync.WaitGroup
+	for i := 0; i < n; i++ {
+		wg.Add(1)
+		go func(i int) {
+			defer wg.Done()
+			p := prolog.New(strings.NewReader(""), io.Discard)
+			for _, l := range loops {
+				sols, err := p.Query(fmt.Sprintf("("+l+" ; true).", iters))
+				if err != nil {
+					continue
+				}
+				sols.Next()
+				sols.Close()
+			}
+		}(i)
+	}
+	wg.Wait()
+	w.Eval(n * len(loops))
+	w.Transitions(n * len(loops) * iters)
+	w.States(1)
+	w.Traces(1)
+	w.Nontrivial(fmt.Sprint("hammer", w.Shard))
+	w.Outcome("hammer-round")
+}
+
 func c14RaceWork(w *h.W) {
+	c14RaceHammer(w)
 	c12RaceHistories(w)
 	c14RaceMatrix(w)
 	rounds := w.Pick(40, 400)
@@ -708,7 +749,7 @@ func init() {
 	h.Register(&h.Check{
 		ID:     "C14race",
 		Hidden: true,
-		Rule:   "free-running -race pass: rounds of 8 interpreters created, loaded, queried (atom creation with colliding names, variable creation, database updates, operators, flags, I/O, early Close) concurrently on real goroutines; one round in which 8 interpreters run the whole goal matrix (every registered procedure x argument-shape tuples) at the same time while their callers read the results they were handed; and every call history of length <= 4 (5) over {Next, Scan, Err, Close} on 8 query kinds under a live, an already cancelled and a later cancelled context (the consumer and the search goroutine of one iterator)",
+		Rule:   "free-running -race pass: rounds of 8 interpreters created, loaded, queried (atom creation with colliding names, variable creation, database updates, operators, flags, I/O, early Close) concurrently on real goroutines; one round in which 8 interpreters run the whole goal matrix (every registered procedure x argument-shape tuples) at the same time while their callers read the results they were handed; and every call history of length <= 4 (5) over {Next, Scan, Err, Close} on 8 query kinds under a live, an already cancelled and a later cancelled context (the consumer and the search goroutine of one iterator); and a hammer round in which 8 interpreters create and write the same never-seen atoms, numbers next to operators and operator terms in tight loops of 1500 (6000) iterations",
 		Explanation: "dynamic analysis (Go race detector) on free-running executions; complements the controlled exploration",
 		Work:   c14RaceWork,
 		Procs:  "8",
